@@ -249,6 +249,15 @@ impl FailSafe {
             })
         })?;
 
+        // Whatever was established on a fabric that the rollback removed must go
+        // with it: its secure sessions would otherwise stay usable, and - the local
+        // index being free again - end up attached to the next fabric that gets it.
+        // As with `RemoveFabric`, `expire_sess_id` is only marked as expired so that
+        // an in-flight response can still be sent.
+        if let Some(fab_idx) = removed_fabric {
+            sessions.remove_for_fabric(fab_idx, expire_sess_id);
+        }
+
         // Any PASE session that was in flight under this fail-safe is
         // now orphaned: its commissioning attempt was rolled back, so the
         // session has nothing to do and should not stick around to fill
